@@ -166,7 +166,7 @@ def cases(tier):
     b3 = [11, 12, 13, 41, 42, 43, 161, 162, 163, 641, 642, 643]
     bc = [7, 8, 9, 25, 26, 27, 97, 98, 99, 385, 386, 387]
     if tier == "quick":
-        N3 = sorted(set(list(range(1, 131)) + b3 + bc))
+        N3 = sorted(set(list(range(1, 131)) + b3 + bc + [2560, 2561, 2562, 1536, 1537, 1538]))
         N4 = sorted(set(list(range(1, 41)) + [41, 42]))
         fd = [8, 40]
         pref = [("ico", 3), ("cube3D", 3), ("cube4D", 2)]
